@@ -1,104 +1,140 @@
 import Fabio.Generated.C17
 import Fabio.Model.C17
 /-!
-Obligations over the facts regenerated from `/repo` on every run: what the model of
-`proxy/gzip/gzip_handler.go` silently assumes about the source.
+OBLIGATIONS over the facts regenerated from `/repo` on every run: what the proof chain for
+`proxy/gzip/gzip_handler.go` needs and no correspondence stream can establish by running the code — the state the
+responses of one process share, who may touch the request, the program order of a handler on the writer pool (the
+hypothesis of `writer_exclusively_owned`), the optional interfaces the writer offers to ANY handler, and the
+wiring in `main.go` that no harness executes. The shape of the sequential code (event lists of the handler,
+`WriteHeader`, `Write`, the helpers, literals) is pinned in `C17Pins.lean` as change detectors: its input/output
+behaviour is compared with the model by the streams on every run.
 
-The facts are canonical, ordered, guarded event lists ("traces") of the exported entry points, produced by
-`tools/factgen/c17.go` (read its header): constants inlined, unexported helpers inlined with their arguments
-substituted (`@k` = a helper inlined inside an expression, bodies in `inlinedDefs`), identifiers printed by
-role (`recv`, `p0`…, `c0`… for the handler closure's parameters, `F[type]` for an unexported field,
-`V[type]`/initialiser for an unexported package variable, a local = the value it was assigned), early returns
-read as if/else, negative conditions swapped, `len(e) > 0` read as `e != ""`. Renaming, extracting/inlining
-helpers, if/else ↔ switch ↔ early return and these expression forms leave them unchanged; a change of what is
-called, stored or returned, in which order and under which condition, does not.
+The facts are canonical, ordered, guarded events `guard && guard => what` of the exported entry points, produced
+by `tools/factgen/c17.go` (read its header): unexported helpers inlined with their arguments substituted,
+identifiers printed by role (`recv`, `p0`…, `c0`/`c1` = the handler closure's writer/request, `F[type]` = an
+unexported field, `V[type]` = an unexported package variable). The statements below are relations between events
+(membership, order, count, same guards), not equalities with spelled-out lists.
 -/
 namespace Fabio.Props.C17Facts
 open Fabio Fabio.Model.C17
 open Fabio.Generated.C17
+set_option maxRecDepth 20000
 
-/-- the header names, encodings and separators the model uses occur as literals … -/
-theorem literals_present :
-    [hVary, hAccept, hAcceptEncoding, hContentEncoding, hContentType, hContentLength, encGzip,
-     ",", ";", "=", "q", "Q", "text/event-stream"].all (fun l => stringLiterals.contains l) = true := by decide
+/-! ### reading events
 
-/-- … and every header-name literal is already canonical, so the direct map index `Header()["Content-Type"]`
-in `Write` and `Header().Get/Set/Del` talk about the same key. -/
-theorem literals_canonical :
-    (stringLiterals.filter (fun l => isPrefix "Accept".toList l.toList || isPrefix "Content-".toList l.toList ||
-        l == "Vary")).all
-      (fun k => canonKey k == k) = true := by decide
+`tools/factgen/c17.go` also ships every event read back into its parts
+`(guards, kind, recv, name, args)`: kind `defer`/`call` with receiver, method and canonical arguments; `store` with
+`recv` = left-hand side and `args` = [right-hand side]; `return` with `args` = results. -/
 
-/-- The handler: add `Vary`; wrap — one writer, one deferred `Close`, then the wrapped handler — exactly when
-`acceptsGzip` (= `@2`) holds and the method is not HEAD; otherwise call the handler on the bare writer. -/
-theorem handler_trace_pinned :
-    handlerTrace = ["c0.Header().Add(\"Vary\", \"Accept-Encoding\")",
-      "@2 && c1.Method != http.MethodHead => defer NewGzipResponseWriter(c0, p1).Close()",
-      "@2 && c1.Method != http.MethodHead => p0.ServeHTTP(NewGzipResponseWriter(c0, p1), c1)",
-      "(!@2 || c1.Method == http.MethodHead) => p0.ServeHTTP(c0, c1)"] := by rfl
+structure Ev where
+  guards : List String
+  kind : String
+  recv : String
+  name : String
+  args : List String
+deriving DecidableEq
 
-/-- `acceptsGzip` (`@2`, with `zeroWeight` = `@1`), `bodyAllowedForStatus` (`@3`) and `isCompressable` (`@4`) as
-inlined: Accept searched for the blacklisted types by substring; Accept-Encoding split at commas, each element
-cut at the first semicolon, the trimmed coding compared with `gzip`, the first hit decides by its weight; the
-first parameter named q/Q decides the weight; 204/304 have no body; an encoded response is not compressable,
-otherwise the expression decides on the Content-Type. -/
-theorem helpers_pinned :
-    inlinedDefs = ["@1 = {range strings.Split(strings.Cut(elem(strings.Split(c1.Header.Get(\"Accept-Encoding\"), \",\")), \";\")#1, \";\") => strings.TrimSpace(strings.Cut(elem(strings.Split(strings.Cut(elem(strings.Split(c1.Header.Get(\"Accept-Encoding\"), \",\")), \";\")#1, \";\")), \"=\")#0); range strings.Split(strings.Cut(elem(strings.Split(c1.Header.Get(\"Accept-Encoding\"), \",\")), \";\")#1, \";\") && (strings.TrimSpace(strings.Cut(elem(strings.Split(strings.Cut(elem(strings.Split(c1.Header.Get(\"Accept-Encoding\"), \",\")), \";\")#1, \";\")), \"=\")#0) == \"q\" || strings.TrimSpace(strings.Cut(elem(strings.Split(strings.Cut(elem(strings.Split(c1.Header.Get(\"Accept-Encoding\"), \",\")), \";\")#1, \";\")), \"=\")#0) == \"Q\") => return strconv.ParseFloat(strings.TrimSpace(strings.Cut(elem(strings.Split(strings.Cut(elem(strings.Split(c1.Header.Get(\"Accept-Encoding\"), \",\")), \";\")#1, \";\")), \"=\")#1), 64)#1 == nil && strconv.ParseFloat(strings.TrimSpace(strings.Cut(elem(strings.Split(strings.Cut(elem(strings.Split(c1.Header.Get(\"Accept-Encoding\"), \",\")), \";\")#1, \";\")), \"=\")#1), 64)#0 == 0; return false}",
-      "@2 = {range []string{\"text/event-stream\"} && strings.Contains(c1.Header.Get(\"Accept\"), elem([]string{\"text/event-stream\"})) => return false; range strings.Split(c1.Header.Get(\"Accept-Encoding\"), \",\") && strings.TrimSpace(strings.Cut(elem(strings.Split(c1.Header.Get(\"Accept-Encoding\"), \",\")), \";\")#0) == \"gzip\" => return !@1; return false}",
-      "@3 = {return p0 != http.StatusNoContent && p0 != http.StatusNotModified}",
-      "@4 = {recv.Header().Get(\"Content-Encoding\") == \"\" => return recv.F[*regexp.Regexp].MatchString(recv.Header().Get(\"Content-Type\")); recv.Header().Get(\"Content-Encoding\") != \"\" => return false}"] := by rfl
+def Ev.of (t : List String × String × String × String × List String) : Ev :=
+  { guards := t.1, kind := t.2.1, recv := t.2.2.1, name := t.2.2.2.1, args := t.2.2.2.2 }
 
-/-- `WriteHeader`: a 1xx status is passed on and nothing else happens; otherwise, only while undecided
-(`F[io.Writer] == nil`): if the status allows a body and the response is compressable — delete Content-Length,
-set Content-Encoding: gzip, take a writer from the pool, reset it onto the response, select it — else select the
-response itself; finally forward the status. In this order. -/
-theorem writeHeader_trace_pinned :
-    writeHeaderTrace = ["p0 >= 100 && p0 <= 199 => recv.ResponseWriter.WriteHeader(p0)",
-      "(p0 < 100 || p0 > 199) && recv.F[io.Writer] == nil && @3 && @4 => recv.Header().Del(\"Content-Length\")",
-      "(p0 < 100 || p0 > 199) && recv.F[io.Writer] == nil && @3 && @4 => recv.Header().Set(\"Content-Encoding\", \"gzip\")",
-      "(p0 < 100 || p0 > 199) && recv.F[io.Writer] == nil && @3 && @4 => recv.F[*gzip.Writer] = V[sync.Pool].Get().(*gzip.Writer)",
-      "(p0 < 100 || p0 > 199) && recv.F[io.Writer] == nil && @3 && @4 => recv.F[*gzip.Writer].Reset(recv.ResponseWriter)",
-      "(p0 < 100 || p0 > 199) && recv.F[io.Writer] == nil && @3 && @4 => recv.F[io.Writer] = recv.F[*gzip.Writer]",
-      "(p0 < 100 || p0 > 199) && recv.F[io.Writer] == nil && (!@3 || !@4) => recv.F[io.Writer] = recv.ResponseWriter",
-      "(p0 < 100 || p0 > 199) => recv.ResponseWriter.WriteHeader(p0)"] := by rfl
+def handlerEvs : List Ev := handlerEvents.map Ev.of
+def writeHeaderEvs : List Ev := writeHeaderEvents.map Ev.of
+def closeEvs : List Ev := closeEvents.map Ev.of
 
-/-- `Write`: while undecided, fill in a sniffed Content-Type when the map has none, then `WriteHeader(200)`;
-then write to whatever was selected. -/
-theorem write_trace_pinned :
-    writeTrace = ["recv.F[io.Writer] == nil && !recv.Header()[\"Content-Type\"]#1 => recv.Header().Set(\"Content-Type\", http.DetectContentType(p0))",
-      "recv.F[io.Writer] == nil => recv.WriteHeader(http.StatusOK)",
-      "return recv.F[io.Writer].Write(p0)"] := by rfl
+/-- `a` occurs, `b` occurs, and the first `a` is before the first `b`. -/
+def before (l : List Ev) (a b : Ev → Bool) : Bool :=
+  match l.findIdx? a, l.findIdx? b with
+  | some i, some j => decide (i < j)
+  | _, _ => false
 
-/-- `Close` closes the gzip writer (which flushes it to the response) and only then puts it back. -/
-theorem close_then_put :
-    closeTrace = ["recv.F[*gzip.Writer] != nil => recv.F[*gzip.Writer].Close()",
-      "recv.F[*gzip.Writer] != nil => V[sync.Pool].Put(recv.F[*gzip.Writer])"] := by rfl
+/-! ### shared state -/
 
-/-- the pool is touched from exactly two entry points (`Get` under `WriteHeader`, `Put` under `Close`), and the
-writer's fields are stored to under `WriteHeader` only: the decision is taken in one place. -/
-theorem pool_and_decision_sites :
+/-- The package has two package-level variables: the `[]string` of refused Accept types and the writer pool.
+No function stores to (or takes the address of) either, the only methods called on them are the pool's
+`Get`/`Put`, and the handler closure stores to no variable of the enclosing `NewGzipHandler`. So the pool is the
+only thing two responses of one process share — the premise of `history_independent`. A realistic change that no
+sampled history needs to expose: memoising the regexp outcome per media type in a package-level map. -/
+theorem package_state_is_the_pool :
+    pkgVarTypes = ["[]string", "sync.Pool"] ∧ pkgVarStores = [] ∧
+    pkgVarCalls = ["V[sync.Pool].Get", "V[sync.Pool].Put"] ∧ handlerSharedStores = [] := by decide
+
+/-- The handler only READS the request — its method and `Header.Get` — and hands it on: no store through it,
+no other method on it or its header map (`Del`, `Set`, `Clone`, `WithContext` …). The reverse proxy and the
+transport therefore see the client's own `Accept-Encoding`; without it the transport would ask for gzip itself and
+decode encoded upstream responses behind the writer's back (`request_forwarded_unchanged`). The stream
+`c17.proxy` shows the effect for the headers it generates; the statement is about every header. -/
+theorem request_read_only :
+    requestStores = [] ∧
+    requestUses.all (fun u => ["c1", "c1.Method", "c1.Header.Get(", "c1.Header.Values("].contains u) = true := by
+  decide
+
+/-! ### program order of one handler on the pool (hypothesis of `writer_exclusively_owned`) -/
+
+/-- the deferred calls of the handler closure -/
+def deferred : List Ev := handlerEvs.filter (fun e => e.kind == "defer")
+
+/-- `Close` is deferred exactly once per request, on a writer that wraps the incoming one, BEFORE the wrapped
+handler runs on that same writer and under the same condition; every other call of the wrapped handler gets the
+bare writer. (So a handler `Put`s at most once, after everything it wrote — also when the wrapped handler panics.) -/
+theorem close_deferred_once_before_serving :
+    (match deferred with
+     | [d] =>
+       d.name == "Close" && d.args == [] &&
+       isPrefix "NewGzipResponseWriter(c0,".toList d.recv.toList &&
+       before handlerEvs (· == d)
+         (fun e => e.guards == d.guards && e.kind == "call" && e.name == "ServeHTTP" && e.args == [d.recv, "c1"]) &&
+       (handlerEvs.filter (fun e => e.name == "ServeHTTP")).all
+         (fun e => e.kind == "call" && ((e.guards == d.guards && e.args == [d.recv, "c1"]) || e.args == ["c0", "c1"]))
+     | _ => false) = true := by decide
+
+def isGet (e : Ev) : Bool :=
+  e.args == ["V[sync.Pool].Get().(*gzip.Writer)"] || (e.recv == "V[sync.Pool]" && e.name == "Get")
+
+/-- `Get` is reachable from `WriteHeader` only and `Put` from `Close` only, one call site each; inside
+`WriteHeader` the `Get` is guarded by "no writer selected yet", its result goes into the writer's gzip field, and
+later under the same guards that field is selected as the writer — so a handler that holds a pooled writer never
+takes a second one. -/
+theorem get_only_when_undecided :
     poolGetIn = ["WriteHeader"] ∧ poolPutIn = ["Close"] ∧
-    fieldStores = ["WriteHeader: F[*gzip.Writer]",
-      "WriteHeader: F[io.Writer]",
-      "WriteHeader: F[io.Writer]"] := by decide
+    (match writeHeaderEvs.filter isGet with
+     | [g] =>
+       g.guards.contains "recv.F[io.Writer] == nil" && g.kind == "store" && g.recv == "recv.F[*gzip.Writer]" &&
+       before writeHeaderEvs (· == g)
+         (fun e => e.guards == g.guards && e.kind == "store" && e.recv == "recv.F[io.Writer]" && e.args == [g.recv])
+     | _ => false) = true := by decide
 
-/-- The method set of `*GzipResponseWriter` that matters for interface satisfaction: the exported declared
-methods plus what the embedded *interface* `http.ResponseWriter` promotes (`Header`, `Write`, `WriteHeader`).
-In particular no `Flush`, `ReadFrom`, `Push`, `Unwrap`: a handler's assertion to `http.Flusher` fails, which is
-what the model's `fl` step says. Any new exported method or embedded field changes the machine and has to be
-modelled first. (Field names and unexported helper methods are free.) -/
+/-- `Close` closes the gzip writer (which flushes it to the response) and only THEN puts it back, once, and what
+it puts back is the field the `Get` went into: a writer in the pool is never still being written by the response
+that returned it. -/
+theorem close_then_put :
+    (before closeEvs
+       (fun e => e.kind == "call" && e.recv == "recv.F[*gzip.Writer]" && e.name == "Close")
+       (fun e => e.kind == "call" && e.recv == "V[sync.Pool]" && e.name == "Put" && e.args == ["recv.F[*gzip.Writer]"]) &&
+     (closeEvs.filter (fun e => e.name == "Put")).length == 1 &&
+     closeEvs.all (fun e => e.guards == ["recv.F[*gzip.Writer] != nil"])) = true := by decide
+
+/-! ### what the writer offers to a handler -/
+
+/-- The method set of `*GzipResponseWriter` that matters for interface satisfaction: the exported declared methods
+plus what the embedded *interface* `http.ResponseWriter` promotes (`Header`, `Write`, `WriteHeader`). In particular
+no `Flush`, `FlushError`, `Unwrap`, `ReadFrom`, `Push`: a handler's assertion to `http.Flusher` fails and
+`http.NewResponseController(w).Flush()` reports "not supported", which is what the model's `fl` step says; any of
+these methods would reach the underlying writer without the decision having been taken. The streams ask the
+`Flusher`/`ResponseController` questions; no stream can ask for every optional interface a handler might. -/
 theorem writer_method_set :
     writerMethods = ["Close", "Hijack", "Write", "WriteHeader"] ∧
-    writerEmbedded = ["http.ResponseWriter"] ∧
-    writerFieldTypes = ["*gzip.Writer", "*regexp.Regexp", "io.Writer"] := by decide
+    writerEmbedded = ["http.ResponseWriter"] := by decide
 
-/-- the proxy installs the handler exactly when an expression is configured, with that expression. -/
-theorem proxy_wraps_when_configured :
-    proxyWrap = ["recv.Config.GZIPContentTypes != nil => gzip.NewGzipHandler(_, recv.Config.GZIPContentTypes)"] := by rfl
+/-! ### wiring no harness executes -/
 
-/-- the expression the streams use most is the documented one; the built-in default is "off". -/
-theorem doc_pattern_pinned :
-    docPattern = "^(text/.*|application/(javascript|json|font-woff|xml)|.*\\+(json|xml))(;.*)?$" ∧
-    defaultSetsGzipPattern = false := by decide
+/-- `main.go` builds the proxy with the `Proxy` part of the loaded configuration (so `proxy.gzip.contenttype`
+arrives at `HTTPProxy.ServeHTTP`) and with `transport.NewTransport(nil)` — the transport the stream `c17.proxy`
+builds the same way. -/
+theorem main_wires_config_and_transport :
+    mainProxyConfig = ["param[*config.Config].Proxy"] ∧
+    mainProxyTransport = ["transport.NewTransport(nil)"] := by decide
+
+/-- nothing above is vacuous: the events exist -/
+example : deferred.length = 1 ∧ (writeHeaderEvs.filter isGet).length = 1 ∧ closeEvs.length = 2 := by decide
 
 end Fabio.Props.C17Facts
